@@ -85,7 +85,7 @@ OPNAME = {  # (operator token, kind of the parameter) -> C name suffix
 }
 # members that are not put under contract, with the reason (listed in NOT_DECIDED / DROPS)
 VEC_SKIP = {'norm': 'sqrt of a double', 'str': 'string formatting, not part of the property'}
-MAT_TAKE = ('ctor', 'transposition', 'transpose', 'mulv', 'mulm')
+MAT_TAKE = ('ctor', 'transposition', 'transpose', 'mulv')
 
 
 def member_headers(src):
@@ -214,7 +214,7 @@ def vec_units(ctx, src):
             rules.append(Rule('(this)', '(self)', count=1))
         kw = {}
         if cls == 'Matrix4':
-            if nm in ('transposition', 'mulm'):
+            if nm == 'transposition':
                 rules.append(Rule('Matrix4<T> res;', 'Matrix4 res; Matrix4_ctor(&res);', count=1))
             if nm == 'transpose':
                 rules += [Rule('Matrix4<T> t = self->transposition();', 'Matrix4 t = Matrix4_transposition(self);', count=1),
@@ -234,20 +234,13 @@ def vec_units(ctx, src):
 MAT_LOOPS = {
     'ctor': {1: 'M4_CTOR_OUTER', 2: 'M4_CTOR_INNER'},
     'transposition': {1: 'M4_TR_OUTER', 2: 'M4_TR_INNER'},
-    'mulm': {1: 'M4_MM_OUTER', 2: 'M4_MM_MID', 3: 'M4_MM_INNER'},
 }
-MAT_NLOOPS = {'ctor': 2, 'transposition': 2, 'mulm': 3}
+MAT_NLOOPS = {'ctor': 2, 'transposition': 2}
 MAT_PREFIX = {}
-# lock-step ghost accumulator for A*B: exact integer partial sum next to the double accumulator of the code
-MAT_RULES = {'mulm': [Rule('double value = 0;', 'double value = 0; g_acc = 0;', count=1),
-                      Rule('value += self->m[z][y] * other->m[x][z];',
-                           'g_acc = g_acc + (int64_t)(self->m[z][y] * other->m[x][z]); value += self->m[z][y] * other->m[x][z];',
-                           count=1)]}
-
+MAT_RULES = {}
 
 TDEF = {
     'int64_t': ['T=int64_t', 'UT=uint64_t', 'T_SIGNED=1', 'T_PROMOTES=0', 'T_MIN=INT64_MIN'],
-    'int32_t': ['T=int32_t', 'UT=uint32_t', 'T_SIGNED=1', 'T_PROMOTES=0', 'T_MIN=INT32_MIN', 'MM_BITS=14'],
     'uint64_t': ['T=uint64_t', 'UT=uint64_t', 'T_SIGNED=0', 'T_PROMOTES=0'],
     'uint32_t': ['T=uint32_t', 'UT=uint32_t', 'T_SIGNED=0', 'T_PROMOTES=0'],
 }
@@ -273,8 +266,8 @@ def vec_groups(ctx, table):
                         function='%s<%s>::operator< / == / !=' % (cls, T),
                         replace=['%s_lt' % cls, '%s_eq' % cls, '%s_ne' % cls], defines=TDEF[T], kind='lemma', min_post=7,
                         replay=Replay(driver='C20/vec.cc', mode='%s_order' % cls, extra=[T])))
-    # cross product orthogonal to both operands: contracts of cross and dot at an element type without undefined overflow,
-    # then the polynomial identity as a lemma over the two contracts
+    # cross product orthogonal to both operands: ensures clauses of cross at the element types without undefined overflow
+    # (polynomial identity in Z/2^n), plus the composition a.dot(a.cross(b)) == 0 executed on the real text of both functions
     for T2 in ('uint64_t', 'uint32_t'):
         for nm in ('cross', 'dot'):
             g = Group(name='Vector.Vector3<%s>.%s' % (T2, nm), harness=H, entry='h_Vector3_' + nm,
@@ -312,15 +305,63 @@ def mat_groups(ctx):
         Group(name='Vector.Matrix4<%s>.transpose-twice' % T, harness=H, entry='l_transpose_inplace_twice',
               function='Matrix4<%s>::transpose' % T, replace=['Matrix4_transpose'], defines=d, kind='lemma',
               replay=rp('Matrix4_transpose_twice')),
-        Group(name='Vector.Matrix4<%s>.mulv' % T, harness=H, entry='h_Matrix4_mulv', function='Matrix4<%s>::operator*(Vector4)' % T,
-              enforce='Matrix4_mulv', defines=d, kind='loop-free', first='cvc5', stage1=30,
-              clause_note='contracts/C20_mat.h: (Mv).row_i == sum_j m[j][i]*v_j for entries |e| <= 2^30', replay=rp('Matrix4_mulv')),
-        Group(name='Vector.Matrix4<int32_t>.mulm', harness=H, entry='h_Matrix4_mulm', function='Matrix4<int32_t>::operator*(Matrix4)',
-              enforce='Matrix4_mulm', replace=['Matrix4_ctor'], loops=True, defines=TDEF['int32_t'], kind='loop-contract', timeout=300,
-              clause_note='contracts/C20_mat.h: (AB).m[x][y] == sum_z A.m[z][y]*B.m[x][z] at the ghost element, entries |e| <= 2^24',
-              replay=rp('Matrix4_mulm')),
+        Group(name='Vector.Matrix4<uint64_t>.mulv', harness=H, entry='h_Matrix4_mulv', function='Matrix4<uint64_t>::operator*(Vector4)',
+              enforce='Matrix4_mulv', defines=TDEF['uint64_t'], kind='loop-free', first='cvc5', stage1=30,
+              clause_note='contracts/C20_mat.h: (Mv).row_i == sum_j m[j][i]*v_j in wrap-around arithmetic',
+              replay=Replay(driver='C20/vec.cc', mode='Matrix4_mulv', extra=['uint64_t'])),
     ]
     return gs
+
+
+# ------------------------------------------------------------------------------------------------------------
+# random_data / random_object / random_int (src/Random.cc, src/Random.hh)
+RCC = 'src/Random.cc'
+
+
+def random_units(ctx, src):
+    uo = Unit(ctx, 'random_object')
+    uo.function(src, 'src/Random.hh', r'T random_object\(\)', new_header='RO_T RO_NAME(void)',
+                rules=[Rule('T ret;', 'RO_T ret;', count=1),
+                       Rule('random_data(&ret, sizeof(T));', 'random_data(&ret, sizeof(RO_T)); if (verif_exc) return 0;', count=1)])
+    uo.write(suffix='.inc')
+    u = Unit(ctx, 'random')
+    u.function(src, RCC, r'void random_data\(void\* data, size_t bytes\)',
+               rules=[Rule('static scoped_fd fd("/dev/urandom", O_RDONLY);', '', count=1),      # the descriptor: part of the stub
+                      Rule('static thread_local string buffer;', '', count=1),                   # hoisted (contracts/C20_random.h)
+                      Rule('buffer.size()', 'buffer.size', count=6),
+                      Rule('buffer.data()', 'buffer.data', count=2),
+                      Rule('buffer = readx(fd, 4096);', 'readx_into(&buffer, 4096); if (verif_exc) return;', count=1),
+                      Rule('buffer.resize(', 'vstr_resize(&buffer, ', count=1),
+                      Rule('memcpy(', 'G_MEMCPY(', count=2)],
+               loops={1: 'RD_LOOP'}, nloops=1,
+               body_prefix=' g_data0 = data; g_bytes0 = bytes; g_filled = 0; g_k_hits = 0; ')
+    u.function(src, RCC, r'string random_data\(size_t bytes\)', new_header='void random_data_str(pstr* ret, size_t bytes)',
+               rules=[Rule("string ret(bytes, '\\0');", "pstr_init_fill(ret, bytes, '\\0'); if (verif_exc) return;", count=1),
+                      Rule('random_data(ret.data(), ret.size());', 'random_data(ret->data, ret->size); if (verif_exc) return;', count=1),
+                      Rule('return ret;', 'return;', count=1)])
+    u.function(src, RCC, r'int64_t random_int\(int64_t low, int64_t high\)',
+               rules=[Rule('random_object<uint%d_t>()' % w, 'random_object_uint%d_t()' % w, count=1) for w in (64, 32, 16, 8)])
+    u.write()
+    return uo, u
+
+
+def random_groups(ctx):
+    H = 'harness/C20/random.c'
+    rp = lambda m: Replay(driver='C20/random.cc', mode=m, sources=['src/Random.cc', 'src/Filesystem.cc', 'src/Strings.cc'])
+    return [
+        Group(name='Random.random_data', harness=H, entry='h_random_data', function='random_data(void*, size_t)',
+              enforce='random_data', loops=True, kind='loop-contract', min_post=3,
+              clause_note='contracts/C20_random.h: every offset < bytes is stored exactly once, nothing else is written (assigns)',
+              replay=rp('random_data')),
+        Group(name='Random.random_data(size_t)', harness=H, entry='h_random_data_str', function='random_data(size_t)',
+              enforce='random_data_str', replace=['random_data'], kind='loop-free',
+              clause_note='contracts/C20_random.h: the returned string has exactly `bytes` bytes, all stored',
+              replay=rp('random_data_str')),
+        Group(name='Random.random_int', harness=H, entry='h_random_int', function='random_int', enforce='random_int',
+              replace=['random_data'], kind='loop-free', first='cvc5', stage1=20,
+              clause_note='contracts/C20_random.h: lo <= random_int(lo,hi) <= hi for hi - lo < 2^63, random source nondet',
+              replay=rp('random_int')),
+    ]
 
 def plan(ctx):
     src = Source(ctx.src)
@@ -332,6 +373,9 @@ def plan(ctx):
     ctx.functions_under_contract += uv.functions
     groups += vec_groups(ctx, table)
     groups += mat_groups(ctx)
+    uo, ur = random_units(ctx, src)
+    ctx.functions_under_contract += uo.functions + ur.functions
+    groups += random_groups(ctx)
     return groups
 
 
